@@ -89,6 +89,20 @@ def c15(tier):
                           variants=[dict(name="A", args=["-O1"], src=vocab.source(p["body"], fn)), dict(name="B", args=["-O1"], src=vocab.source(p["body2"], fn))]))
         bodies[cid] = p["body"]
         bodies[cid + "#B"] = p["body2"]
+    # the tenth pair: one AST, two spellings - canonical (every sub-expression parenthesised, every body braced) and natural
+    # (parentheses only where C's precedence needs them, single statements without braces, else-if chains)
+    sfams = ["F1n", "F2a", "F2c", "F2d", "F2e", "F3a", "F3b", "F3d", "F3e", "F4b", "F7a", "F7b", "F7d", "F8f", "FG", "FP", "FT", "F5e", "F1b", "F1c"]
+    sprogs, _ = checks_refine.sample_programs(tier, fams=sfams, name="c15s", scale=0.25, quota={"FG": None, "F3e": None, "F2d": None, "F3d": 30})
+    for i, p in enumerate(sprogs):
+        fn = sorted(render.calls_in(p["body"]))
+        a, b = vocab.source(p["body"], fn), vocab.source(p["body"], fn, natural=True)
+        if a == b:
+            continue
+        cid = "surface-%05d" % i
+        cases.append(dict(id=cid, fam="surface", body=None, in_body=p["body"], fnames=fn, small=(p["fam"] in checks_refine.SMALL_FAMS),
+                          variants=[dict(name="A", args=["-O1"], src=a), dict(name="B", args=["-O1"], src=b)]))
+        bodies[cid] = p["body"]
+        bodies[cid + "#B"] = p["body"]
     pl = refine.Pipeline("c15", tier=tier)
     pl.run(cases, sem=False, pair=True, maxin=16 if tier == "quick" else 48)
     sm = checks_refine.finding_signatures(pid)
